@@ -527,3 +527,22 @@ func (c *PoSAChain) Next(rng *rand.Rand, parent *PNode, o HonestOpt) *Hdr {
 	}
 	return c.M.Honest(rng, parent, c.Keys, o)
 }
+
+// InTurn is the validator whose turn it is to seal a child of parent.
+func (m *PoSAModel) InTurn(parent *PNode) Addr {
+	set := m.InEffect(parent)
+	return set[(parent.H.Number+1)%uint64(len(set))]
+}
+
+// Eligible lists the validators of the set in effect that may seal a child of parent (not inside
+// the recent-signer window) and whose key is known.
+func (m *PoSAModel) Eligible(parent *PNode, keys map[Addr]*Validator) []Addr {
+	set := m.InEffect(parent)
+	var out []Addr
+	for _, a := range set {
+		if keys[a] != nil && !m.RecentlySealed(parent, a, len(set)) {
+			out = append(out, a)
+		}
+	}
+	return out
+}
